@@ -314,6 +314,24 @@ pub fn run(ctx: &Ctx) -> Report {
                 }
             }
         }
+        // mid-sized messages (neither tiny nor near 2^24) behind 0..251 queued small packets, under
+        // short transport writes of several sizes: whatever batching sits between a packet and the
+        // transport must keep the bytes in order
+        let mids = [9000usize, 16_384, 20_000, 70_000, 100_000, 300_000];
+        let wls = [100usize, 1000, 4096, 16_384, 65_536];
+        for (mi, &t) in mids.iter().enumerate() {
+            for bin in [false, true] {
+                if ctx.thorough {
+                    for &wl in &wls {
+                        cases.push((t, Asm::OneCell, bin, wl));
+                        cases.push((t + 1 + mi, Asm::GiantThenSmall, bin, wl));
+                    }
+                } else {
+                    cases.push((t, if mi % 2 == 0 { Asm::OneCell } else { Asm::GiantThenSmall }, bin, wls[(mi + bin as usize) % wls.len()]));
+                    cases.push((t + 3, Asm::OneCell, bin, wls[(mi + 2 + bin as usize) % wls.len()]));
+                }
+            }
+        }
         let r = par_cases(ctx, "C04", "big", cases.len() as u64, |_rng, i, rep| {
             let (t, a, bin, wl) = cases[i as usize];
             big_case(ctx, t, a, bin, wl, rep, i);
